@@ -93,6 +93,8 @@ pub fn run(ctx: &mut Ctx) {
     {
         let s2 = sched.clone();
         utils::verif_hooks::set_callback(Some(Arc::new(move |name| {
+            // (the checksum-pass point is used by the damaged-entry scenario below only; the scheduled model has no such step)
+            if name == "cache.crc.begin" { return; }
             if let Some(id) = WORKER.with(|w| w.get()) { s2.park(id, name); }
         })));
     }
@@ -381,6 +383,71 @@ pub fn run(ctx: &mut Ctx) {
         drop(shared);
     }
     utils::verif_hooks::set_callback(None);
+
+    // ---- damaged entry read by two readers at once (C12): an entry is put, the cache closed, one byte of its file flipped (or
+    // not: control), the cache re-opened; while the first reader is inside its checksum pass a second reader of the same entry
+    // runs to completion.  Neither may return a hit that is not the reference slice.
+    {
+        thread_local! { static NESTED: std::cell::Cell<bool> = const { std::cell::Cell::new(false) }; }
+        type Inner = Option<(Key, ChunkRange, Arc<DiskCache>)>;
+        static PLAN: Mutex<Inner> = Mutex::new(None);
+        static INNER_RESULT: Mutex<Option<String>> = Mutex::new(None);
+        let show = |r: Result<Result<Option<chunk_cache::CacheRange>, chunk_cache::error::ChunkCacheError>, ()>| -> String { match r {
+            Err(_) => "panic".to_string(), Ok(Err(e)) => format!("err:{}", err_str(&e)), Ok(Ok(None)) => "miss".into(),
+            Ok(Ok(Some(cr))) => format!("hit:{}:{}:{}", cr.data.len(), crc32fast::hash(&cr.data), cr.offsets.iter().map(|o| o.to_string()).collect::<Vec<_>>().join(".")) } };
+        utils::verif_hooks::set_callback(Some(Arc::new(move |name| {
+            if name != "cache.crc.begin" || NESTED.with(|n| n.get()) { return; }
+            let plan = PLAN.lock().unwrap().take();
+            if let Some((key, range, cache)) = plan {
+                NESTED.with(|n| n.set(true));
+                let r = guarded(|| cache.get(&key, &range));
+                NESTED.with(|n| n.set(false));
+                *INNER_RESULT.lock().unwrap() = Some(match r { Err(_) => "panic".to_string(), Ok(Err(e)) => format!("err:{}", err_str(&e)), Ok(Ok(None)) => "miss".into(),
+                    Ok(Ok(Some(cr))) => format!("hit:{}:{}:{}", cr.data.len(), crc32fast::hash(&cr.data), cr.offsets.iter().map(|o| o.to_string()).collect::<Vec<_>>().join(".")) });
+            }
+        })));
+        for round in 0..(if ctx.quick() { 60 } else { 600 }) {
+            let mut rng = ctx.rng.fork(0xDA3A + round);
+            let env = gen_env(ctx, &mut rng, 1, false);
+            let _ = std::fs::remove_dir_all(&root);
+            std::fs::create_dir_all(&root).unwrap();
+            let x = &env.xorbs[0];
+            let n = x.nchunks();
+            let s = rng.below(n as u64) as u32; let e = rng.range(s as u64 + 1, n as u64) as u32;
+            let cfg = CacheConfig { cache_directory: root.clone(), cache_size: 1 << 30 };
+            { let c = DiskCache::initialize(&cfg).unwrap(); let (offs, data) = x.slice(s, e); c.put(&x.key, &ChunkRange { start: s, end: e }, &offs, data).unwrap(); }
+            let files: Vec<String> = item_files(&root).into_iter().collect();
+            let damaged = !rng.chance(1, 4);
+            if damaged && files.len() == 1 {
+                let p = root.join(&files[0]); let mut b = std::fs::read(&p).unwrap();
+                let pos = match rng.below(3) { 0 => b.len() - 1, 1 => rng.below(b.len() as u64) as usize, _ => b.len() - 1 - rng.below((b.len() as u64).min(64)) as usize };
+                b[pos] ^= 1 << rng.below(8); std::fs::write(&p, &b).unwrap();
+            }
+            let c = Arc::new(DiskCache::initialize(&cfg).unwrap());
+            // the second reader asks for the whole entry or a sub-range of it
+            let (s2, e2) = if rng.chance(1, 2) { (s, e) } else { let a = rng.range(s as u64, e as u64 - 1) as u32; (a, rng.range(a as u64 + 1, e as u64) as u32) };
+            *INNER_RESULT.lock().unwrap() = None;
+            *PLAN.lock().unwrap() = Some((x.key.clone(), ChunkRange { start: s2, end: e2 }, c.clone()));
+            let c1 = c.clone(); let k1 = x.key.clone();
+            let outer = show(guarded(move || c1.get(&k1, &ChunkRange { start: s, end: e })));
+            *PLAN.lock().unwrap() = None;
+            let inner = INNER_RESULT.lock().unwrap().take();
+            let reference = |a: u32, b: u32| { let (offs, data) = x.slice(a, b); format!("hit:{}:{}:{}", data.len(), crc32fast::hash(data), offs.iter().map(|o| o.to_string()).collect::<Vec<_>>().join(".")) };
+            for (who, r, (a, b)) in [("first reader", Some(outer.clone()), (s, e)), ("second reader (during the first one's checksum pass)", inner.clone(), (s2, e2))] {
+                let Some(r) = r else { continue; };
+                if r == "panic" { ctx.fail("C12", "panic", format!("{who} panicked on a {} entry (round {round})", if damaged { "damaged" } else { "valid" }), format!("{{\"suite\":\"cache_conc\",\"seed\":{},\"damaged_round\":{round}}}", ctx.seed)); }
+                if r.starts_with("hit:") && r != reference(a, b) {
+                    ctx.fail("C12", "damaged-entry-hit-during-concurrent-verification", format!("{who}: get([{a},{b})) on an entry whose file was {} while the cache was closed is a hit that is not the slice of what was put (round {round})", if damaged { "damaged (one bit flipped)" } else { "left intact" }),
+                             format!("{{\"suite\":\"cache_conc\",\"seed\":{},\"damaged_round\":{round}}}", ctx.seed));
+                }
+                if !damaged && !r.starts_with("hit:") { ctx.stat("intact_entry_not_hit"); }
+            }
+            ctx.stat(if damaged { "damaged_rounds" } else { "intact_rounds" });
+            if inner.is_some() { ctx.stat("second_reader_ran_inside_checksum_pass"); }
+            ctx.stat(&format!("damaged_round_outer_{}", outer.split(':').next().unwrap()));
+        }
+        utils::verif_hooks::set_callback(None);
+    }
     std::panic::set_hook(old_hook);
     let _ = std::fs::remove_dir_all(&root);
     let _: Option<(Env, Rng)> = None;
